@@ -37,7 +37,7 @@ func init() {
 		Text: "Whitespace and comments are skipped before, and independently of, the decision whether `/` is division or a regexp: no condition that guards the comment skip reads the previous token."})
 	register(&Rule{ID: "R-FOLDSAFE", Floor: 1, Run: ruleFoldSafe,
 		Text: "Constant folding cannot panic inside Prepare (which has no recover): a division is folded only after its divisor — the later push — was tested against zero."})
-	register(&Rule{ID: "R-USEBEFORECHECK", Floor: 2, Run: ruleUseBeforeCheck,
+	register(&Rule{ID: "R-USEBEFORECHECK", Floor: 1, Run: ruleUseBeforeCheck,
 		Text: "A result returned together with an error is not stored into shared state (a map, a package variable, a field) before the error has been tested and found nil."})
 }
 
@@ -49,64 +49,40 @@ func ruleSwitchDefault(p *Program, r *Reporter) {
 	if a == nil {
 		return
 	}
-	fn := a.compile
-	emits := map[ssa.Instruction]emitSite{}
-	for _, e := range emitSites(p, a, fn) {
-		emits[e.call] = e
-	}
-	// compile(X.Block) calls where X is a *ast.CaseExpression, classified by the
-	// Default test that dominates them
 	n := 0
-	for _, b := range fn.Blocks {
-		for _, ins := range b.Instrs {
-			c, ok := staticCalleeIs(ins, a.compile)
-			if !ok {
-				continue
-			}
-			// argument derives from field Block of a CaseExpression
-			isCaseBlock := false
-			var caseVal ssa.Value
-			for _, o := range outerOrigins(c.Call.Args[1]) {
-				if u, ok := o.(*ssa.UnOp); ok && u.Op == token.MUL {
-					if k := fieldKey(u.X); k == "ast.CaseExpression.Block" {
-						isCaseBlock = true
-						if fa, ok := u.X.(*ssa.FieldAddr); ok {
-							caseVal = fa.X
-						}
-					}
-				}
-			}
-			if !isCaseBlock {
-				continue
-			}
-			// dominated by the true edge of a load of X.Default ?
-			underDefault := false
-			for d := b; d.Idom() != nil; d = d.Idom() {
-				iff, ok := terminator(d.Idom()).(*ssa.If)
+	// (the translation of a switch may sit in the compiler's case or in a
+	// function of its own)
+	for _, fn := range compilerFamily(p, a) {
+		emits := map[ssa.Instruction]emitSite{}
+		for _, e := range emitSites(p, a, fn) {
+			emits[e.call] = e
+		}
+		// compile(X.Block) calls where X is a *ast.CaseExpression, classified by the
+		// Default test that dominates them
+		for _, b := range fn.Blocks {
+			for _, ins := range b.Instrs {
+				c, ok := staticCalleeIs(ins, a.compile)
 				if !ok {
 					continue
 				}
-				cond, neg := iff.Cond, false
-				if u, ok := cond.(*ssa.UnOp); ok && u.Op == token.NOT {
-					cond, neg = u.X, true
+				// argument derives from field Block of a CaseExpression
+				isCaseBlock := false
+				var caseVal ssa.Value
+				for _, o := range outerOrigins(c.Call.Args[1]) {
+					if u, ok := o.(*ssa.UnOp); ok && u.Op == token.MUL {
+						if k := fieldKey(u.X); k == "ast.CaseExpression.Block" {
+							isCaseBlock = true
+							if fa, ok := u.X.(*ssa.FieldAddr); ok {
+								caseVal = fa.X
+							}
+						}
+					}
 				}
-				ld, ok := cond.(*ssa.UnOp)
-				if !ok || ld.Op != token.MUL || fieldKey(ld.X) != "ast.CaseExpression.Default" {
+				if !isCaseBlock {
 					continue
 				}
-				onTrue := d.Idom().Succs[0] == d
-				if neg {
-					onTrue = !onTrue
-				}
-				if onTrue {
-					underDefault = true
-				}
-			}
-			_ = caseVal
-			if !underDefault {
-				// a block compiled without knowing it is not the default: is there a
-				// dominating "not default" test?
-				notDefault := false
+				// dominated by the true edge of a load of X.Default ?
+				underDefault := false
 				for d := b; d.Idom() != nil; d = d.Idom() {
 					iff, ok := terminator(d.Idom()).(*ssa.If)
 					if !ok {
@@ -120,39 +96,66 @@ func ruleSwitchDefault(p *Program, r *Reporter) {
 					if !ok || ld.Op != token.MUL || fieldKey(ld.X) != "ast.CaseExpression.Default" {
 						continue
 					}
-					onFalse := d.Idom().Succs[1] == d
+					onTrue := d.Idom().Succs[0] == d
 					if neg {
-						onFalse = !onFalse
+						onTrue = !onTrue
 					}
-					if onFalse {
-						notDefault = true
+					if onTrue {
+						underDefault = true
 					}
 				}
-				if !notDefault {
-					n++
-					r.Undecided(siteKey(p, fn, c.Pos(), "case block compiled"), p.Pos(c.Pos()), "a case block is compiled at a point where it is not known whether it is the default arm")
+				_ = caseVal
+				if !underDefault {
+					// a block compiled without knowing it is not the default: is there a
+					// dominating "not default" test?
+					notDefault := false
+					for d := b; d.Idom() != nil; d = d.Idom() {
+						iff, ok := terminator(d.Idom()).(*ssa.If)
+						if !ok {
+							continue
+						}
+						cond, neg := iff.Cond, false
+						if u, ok := cond.(*ssa.UnOp); ok && u.Op == token.NOT {
+							cond, neg = u.X, true
+						}
+						ld, ok := cond.(*ssa.UnOp)
+						if !ok || ld.Op != token.MUL || fieldKey(ld.X) != "ast.CaseExpression.Default" {
+							continue
+						}
+						onFalse := d.Idom().Succs[1] == d
+						if neg {
+							onFalse = !onFalse
+						}
+						if onFalse {
+							notDefault = true
+						}
+					}
+					if !notDefault {
+						n++
+						r.Undecided(siteKey(p, fn, c.Pos(), "case block compiled"), p.Pos(c.Pos()), "a case block is compiled at a point where it is not known whether it is the default arm")
+					}
+					continue
 				}
-				continue
-			}
-			n++
-			key := siteKey(p, fn, c.Pos(), "default arm compiled after all case tests")
-			reaches := token.NoPos
-			walkForward(c, func(i2 ssa.Instruction) bool {
-				if e, ok := emits[i2]; ok && e.op == "OpCase" {
-					reaches = i2.Pos()
-					return true
+				n++
+				key := siteKey(p, fn, c.Pos(), "default arm compiled after all case tests")
+				reaches := token.NoPos
+				walkForward(c, func(i2 ssa.Instruction) bool {
+					if e, ok := emits[i2]; ok && e.op == "OpCase" {
+						reaches = i2.Pos()
+						return true
+					}
+					return false
+				})
+				if reaches.IsValid() {
+					r.Fail(key, p.Pos(c.Pos()), "after the default block has been emitted the compiler can still emit a case comparison ("+p.Pos(reaches)+"): a default that is not written last runs whenever the cases above it fail, and a matching case below it runs as well")
+				} else {
+					r.OkNT(key, p.Pos(c.Pos()), "no case comparison is emitted after the default block")
 				}
-				return false
-			})
-			if reaches.IsValid() {
-				r.Fail(key, p.Pos(c.Pos()), "after the default block has been emitted the compiler can still emit a case comparison ("+p.Pos(reaches)+"): a default that is not written last runs whenever the cases above it fail, and a matching case below it runs as well")
-			} else {
-				r.OkNT(key, p.Pos(c.Pos()), "no case comparison is emitted after the default block")
 			}
 		}
 	}
 	if n == 0 {
-		r.Undecided("switch compilation", p.Pos(fn.Pos()), "no compilation of a case block found")
+		r.Undecided("switch compilation", p.Pos(a.compile.Pos()), "no compilation of a case block found")
 	}
 }
 
@@ -457,7 +460,7 @@ func ruleCommaOk(p *Program, r *Reporter) {
 // opcodes the pass may name.
 var optimizerRewriteSets = map[string][]string{
 	"fold":     {"OpPush", "OpSquareRoot", "OpNop", "OpEqual", "OpNotEqual", "OpMul", "OpAdd", "OpSub", "OpDiv"},
-	"jumps":    {"OpJumpIfFalse"},
+	"jumps":    {"OpJumpIfFalse", "OpTrue", "OpFalse"},
 	"nops":     {"OpNop", "OpJump", "OpJumpIfFalse"},
 	"deadcode": {"OpJumpIfFalse", "OpJump", "OpReturn"},
 }
@@ -506,22 +509,37 @@ func ruleOptClosed(p *Program, r *Reporter) {
 				continue
 			}
 			named := map[string]bool{}
-			var firstSw *ast.SwitchStmt
+			var firstSw ast.Node
 			ast.Inspect(fd.Body, func(n ast.Node) bool {
-				sw, ok := n.(*ast.SwitchStmt)
-				if !ok || sw.Tag == nil {
-					return true
-				}
-				if tv, ok := info.Types[sw.Tag]; !ok || !isOpcodeType(tv.Type) {
-					return true
-				}
-				if firstSw == nil {
-					firstSw = sw
-				}
-				for _, cc := range sw.Body.List {
-					for _, e := range cc.(*ast.CaseClause).List {
+				switch x := n.(type) {
+				case *ast.SwitchStmt:
+					if x.Tag == nil {
+						return true
+					}
+					if tv, ok := info.Types[x.Tag]; !ok || !isOpcodeType(tv.Type) {
+						return true
+					}
+					if firstSw == nil {
+						firstSw = x
+					}
+					for _, cc := range x.Body.List {
+						for _, e := range cc.(*ast.CaseClause).List {
+							if o := opConstName(info, e); o != "" {
+								named[o] = true
+							}
+						}
+					}
+				case *ast.BinaryExpr:
+					// the same decision written as a comparison
+					if x.Op != token.EQL && x.Op != token.NEQ {
+						return true
+					}
+					for _, e := range []ast.Expr{x.X, x.Y} {
 						if o := opConstName(info, e); o != "" {
 							named[o] = true
+							if firstSw == nil {
+								firstSw = x
+							}
 						}
 					}
 				}
